@@ -70,8 +70,10 @@ def generate(R, tier):
         c = {"stream": st, "v": v, "raw": bytes(raw).hex()}
         if R.random() < 0.5:
             # the previous packet of the uptime pair: `ticks` timestamp ticks and `ms` milliseconds before this one
-            c["up"] = [R.choice([0, 1, 4, 5, 6, 7, 10, 13, 100, 1000, 15000, 2 ** 31, 2 ** 32 - 1, R.randrange(2 ** 32)]),
-                       R.choice([0, 1, 24, 25, 26, 130, 500, 5000, 6000, 7000, 7143, 7200, 10000, 600000, 10 ** 9, R.randrange(1, 10 ** 7)])]
+            c["up"] = [R.choice([0, 1, 4, 5, 6, 7, 10, 13, 100, 1000, 15000, 2 ** 31, 2 ** 32 - 1, R.randrange(2 ** 32),
+                                 # (a clock that steps BACK a little: 2^32 - k)
+                                 2 ** 32 - 2, 2 ** 32 - 5, 2 ** 32 - 9, 2 ** 32 - 30, 2 ** 32 - 67, 2 ** 32 - 68, 2 ** 32 - 1000]),
+                       R.choice([0, 1, 24, 25, 26, 99, 100, 101, 130, 500, 1000, 2000, 5000, 6000, 7000, 7143, 7200, 10000, 600000, 10 ** 9, R.randrange(1, 10 ** 7)])]
         yield c
         if i % 60 == 0:
             base = bytes(W.build(spec))
